@@ -59,6 +59,17 @@ def styles_for(progs, rng):
              'param': rng.choice(('none', 'named', 'positional')), 'table': rng.random() < 0.5} for p in progs]
 
 
+def realise(progs, mode, rseed, named=False):
+    """connections and statement styles of one case, a function of the stored seed (so that a replay file rebuilds it)"""
+    crng = random.Random(rseed)
+    conns = connections(progs, mode, crng)
+    if named:
+        st = styles_for(progs[:1], crng)[0]
+        st['param'] = 'named'
+        return conns, [dict(st) for _ in progs]
+    return conns, styles_for(progs, crng)
+
+
 def run_threads(progs, conns, styles, order=None, rng=None, timeout=60.0, as_text=False):
     s = sched.Scheduler(order=order, rng=rng, timeout=timeout)
     texts = {}
@@ -113,8 +124,8 @@ def serial_check(ctx, name, progs, expected, rng, suspects):
     code are the specification's rows"""
     modes = ['separate-diff'] + (['shared'] if same_data(progs) else [])
     for mode in modes:
-        conns = connections(progs, mode, rng)
-        styles = styles_for(progs, rng)
+        rseed = rng.randrange(2 ** 31)
+        conns, styles = realise(progs, mode, rseed)
         got = run_serial(progs, conns, styles)
         ctx.case('serial:%s:%s' % (name, mode), n=len(progs))
         for tid in sorted(expected):
@@ -123,7 +134,7 @@ def serial_check(ctx, name, progs, expected, rng, suspects):
                 np_ = count_pauses(expected[tid], p)
                 suspects.items.append(dict(leg='S2C', progs=[p], grants=[1] * (1 + np_) if np_ is not None else [None],
                                            rows={1: got[tid]}, serial=True, mode=mode,
-                                           case={'kind': 'serial', 'config': name, 'prog': p, 'mode': mode},
+                                           case={'kind': 'serial', 'config': name, 'progs': progs, 'tid': tid, 'mode': mode, 'rseed': rseed},
                                            why='serial rows differ', texts={1: hb.statement(p, tid, None, styles[tid - 1])[0]},
                                            expected={1: expected[tid]}))
 
@@ -180,9 +191,9 @@ def replay_config(ctx, name, cfg, nthreads, rng, suspects, limit=None, simulate=
     nrun = nbad = 0
     for n, sc in enumerate(scheds):
         for mode in (modes if (limit is None or len(modes) == 1) else [modes[n % len(modes)]]):
-            conns = connections(progs, mode, rng)
-            styles = styles_for(progs, rng)
-            case = {'kind': 'schedule', 'config': name, 'progs': progs, 'sched': sc['sched'], 'mode': mode, 'styles': styles}
+            rseed = rng.randrange(2 ** 31)
+            conns, styles = realise(progs, mode, rseed)
+            case = {'kind': 'schedule', 'config': name, 'progs': progs, 'sched': sc['sched'], 'mode': mode, 'rseed': rseed}
             s, results, excs, texts = run_threads(progs, conns, styles, order=sc['sched'])
             ok = judge_run(ctx, 'S2C', progs, mode, styles, s, results, excs, texts, exp, suspects, case)
             ctx.case(json.dumps([name, sc['sched'], mode]), nontrivial=len(set(sc['sched'])) > 1)
@@ -196,11 +207,9 @@ def replay_config(ctx, name, cfg, nthreads, rng, suspects, limit=None, simulate=
     ntext = 0
     if same_data(progs) and len({json.dumps(abstract_prog(p), sort_keys=True) for p in progs}) == 1:
         for sc in scheds[:ctx.pick(6, 40)]:
-            conns = connections(progs, 'shared', rng)
-            st = styles_for(progs[:1], rng)[0]
-            st['param'] = 'named'
-            styles = [dict(st) for _ in progs]
-            case = {'kind': 'schedule', 'config': name, 'progs': progs, 'sched': sc['sched'], 'mode': 'shared', 'styles': styles,
+            rseed = rng.randrange(2 ** 31)
+            conns, styles = realise(progs, 'shared', rseed, named=True)
+            case = {'kind': 'schedule', 'config': name, 'progs': progs, 'sched': sc['sched'], 'mode': 'shared', 'rseed': rseed,
                     'as_text': True}
             s, results, excs, texts = run_threads(progs, conns, styles, order=sc['sched'], as_text=True)
             nbad += not judge_run(ctx, 'S2C', progs, 'shared-text', styles, s, results, excs, texts, exp, suspects, case)
@@ -243,11 +252,11 @@ def record_runs(ctx, nruns, rng, suspects):
         else:
             first = random_prog(rng)
             progs = [first] + [random_prog(rng, first['ledger'], first['mask']) for _ in range(nt - 1)]
-        conns = connections(progs, mode, rng)
-        styles = styles_for(progs, rng)
+        rseed = rng.randrange(2 ** 31)
+        conns, styles = realise(progs, mode, rseed)
         seed = rng.randrange(2 ** 31)
         s, results, excs, texts = run_threads(progs, conns, styles, rng=random.Random(seed))
-        case = {'kind': 'random-run', 'progs': progs, 'mode': mode, 'styles': styles, 'sched_seed': seed, 'grants': list(s.log)}
+        case = {'kind': 'random-run', 'progs': progs, 'mode': mode, 'rseed': rseed, 'sched_seed': seed, 'grants': list(s.log)}
         if not judge_run(ctx, 'C2S', progs, mode, styles, s, results, excs, texts, None, suspects, case):
             continue
         rid = i + 1
@@ -356,13 +365,15 @@ def run(ctx):
     # ---- S2C
     q = ctx.quick
     n = 0
-    n += replay_config(ctx, '2x3_same', 'Gen_Balance_2x3_same.cfg', 2, rng, suspects, limit=300 if q else None)
-    n += replay_config(ctx, '2x3_diff', 'Gen_Balance_2x3_diff.cfg', 2, rng, suspects, limit=150 if q else None)
-    n += replay_config(ctx, '3x2_same', 'Gen_Balance_3x2_same.cfg', 3, rng, suspects, limit=200 if q else None)
-    n += replay_config(ctx, '3x2_diff', 'Gen_Balance_3x2_diff.cfg', 3, rng, suspects, limit=100 if q else None)
-    n += replay_config(ctx, 'mix2', 'Gen_Balance_mix2.cfg', 2, rng, suspects, limit=100 if q else None)
-    n += replay_config(ctx, 'mix2s', 'Gen_Balance_mix2s.cfg', 2, rng, suspects, limit=100 if q else None)
-    n += replay_config(ctx, 'mix3', 'Gen_Balance_mix3.cfg', 3, rng, suspects, limit=100 if q else 2500)
+    # quick: a seeded subset of the schedules of five configurations; thorough: every schedule of all eight
+    n += replay_config(ctx, '2x3_same', 'Gen_Balance_2x3_same.cfg', 2, rng, suspects, limit=400 if q else None)
+    n += replay_config(ctx, '3x2_diff', 'Gen_Balance_3x2_diff.cfg', 3, rng, suspects, limit=200 if q else None)
+    n += replay_config(ctx, 'mix2s', 'Gen_Balance_mix2s.cfg', 2, rng, suspects, limit=150 if q else None)
+    n += replay_config(ctx, 'mix3', 'Gen_Balance_mix3.cfg', 3, rng, suspects, limit=150 if q else None)
+    if not q:
+        n += replay_config(ctx, '2x3_diff', 'Gen_Balance_2x3_diff.cfg', 2, rng, suspects)
+        n += replay_config(ctx, '3x2_same', 'Gen_Balance_3x2_same.cfg', 3, rng, suspects)
+        n += replay_config(ctx, 'mix2', 'Gen_Balance_mix2.cfg', 2, rng, suspects)
     n += replay_config(ctx, '3x3', 'Gen_Balance_3x3.cfg', 3, rng, suspects, limit=100 if q else 6000,
                        simulate=200 if q else 8000)
     ctx.leg('S2C', replays=n)
@@ -389,27 +400,49 @@ def run(ctx):
 def replay(ctx, rep):
     case = rep['case']
     sched.register()
-    suspects = Suspects()
-    rng = random.Random(rep.get('seed'))
     if case.get('kind') in ('schedule', 'random-run'):
         progs = case['progs']
-        conns = connections(progs, case['mode'], rng)
+        text = case.get('as_text', False)
+        conns, styles = realise(progs, case['mode'], case['rseed'], named=text)
         order = case.get('sched') or case.get('grants')
-        s, results, excs, texts = run_threads(progs, conns, case['styles'], order=order, as_text=case.get('as_text', False))
-        serial = run_serial(progs, connections(progs, case['mode'], rng), case['styles'])
+        s, results, excs, texts = run_threads(progs, conns, styles, order=order, as_text=text)
+        conns2, styles2 = realise(progs, case['mode'], case['rseed'], named=text)
+        serial = run_serial(progs, conns2, styles2)
         print('replay: statements', texts)
-        print('replay: grants', s.log, 'diverged:', s.diverged, 'exceptions:', excs)
-        same = results == serial and not excs and not s.diverged
+        print('replay: grants', s.log, 'diverged:', s.diverged, 'exceptions:', excs, 'pause-argument mismatches:', s.mismatch)
+        same = results == serial and not excs and not s.diverged and not s.mismatch
         print('  concurrent', show(results))
         print('  serial    ', show(serial))
-        print('replay:', 'concurrent = serial' if same else 'MISMATCH reproduced (concurrent results differ from serial execution)')
+        norm = json.loads(json.dumps(show(results), default=str)) if results else None
+        if rep.get('expected') is not None and norm != rep['expected']:
+            print('  specification', rep['expected'])
+            same = False
+        elif rep.get('expected') is None and same:
+            # a recorded run: let TLC judge it again
+            lines = [{'k': 'begin', 'id': 1, 'progs': [hb.prog_to_trace(p) for p in progs]}]
+            lines += [{'k': 'grant', 'id': 1, 't': t} for t in s.log]
+            lines.append({'k': 'end', 'id': 1, 'rows': [hb.rows_to_trace(results[t], 1) for t in range(1, len(progs) + 1)]})
+            res, verdicts = run_trace(ctx, lines, 'Trace_Balance.cfg', 'C2S', 'replay.ndjson')
+            rej = [p for p in verdicts if p.get('verdict') == 'rejected']
+            if rej or res.violated:
+                print('  TLC rejects the run:', rej or res.violated)
+                same = False
+        print('replay:', 'no mismatch (concurrent = serial = specification)' if same else
+              'MISMATCH reproduced (concurrent results differ from serial execution or from the specification)')
         return 0 if same else 1
     if case.get('kind') == 'serial':
-        p = case['prog']
-        conns = connections([p], 'separate-diff', rng)
-        rows = run_serial([p], conns, [{}])[1]
-        print('replay: serial rows', show({1: rows}))
-        print('replay: compare with "expected" in the replay file')
-        return 1
+        progs = case['progs']
+        conns, styles = realise(progs, case['mode'], case['rseed'])
+        rows = run_serial(progs, conns, styles)[case['tid']]
+        exp = rep.get('expected') or {}
+        print('replay: serial rows ', show({1: rows}))
+        print('replay: expected    ', exp)
+        same = json.loads(json.dumps(show({1: rows}), default=str)) == exp
+        print('replay:', 'no mismatch' if same else 'MISMATCH reproduced')
+        return 0 if same else 1
+    if case.get('kind') == 'attr':
+        import beanquery
+        print('replay: beanquery.threadsafety =', getattr(beanquery, 'threadsafety', None))
+        return 0 if getattr(beanquery, 'threadsafety', None) == 2 else 1
     print('replay: case kind not replayable standalone; re-run the check')
     return 2
